@@ -1149,12 +1149,17 @@ fn evt_cells(tier: Tier) -> Vec<Cell> {
 				state: *s,
 				r,
 				ops: vec![o, O_MINE],
-				bound: if is_atomic(o) { None } else { Some(tier.pick(1, 2)) },
-				limit: tier.pick(160, 6000),
+				bound: if is_atomic(o) { None } else { Some(env_u64("GWV_C20_EVT_BOUND").map(|b| b as u32).unwrap_or(tier.pick(1, 2))) },
+				limit: env_u64("GWV_C20_EVT_LIMIT").unwrap_or(tier.pick(160, 6000)),
 			});
 		}
 	}
 	v
+}
+
+/// exploration aid (not used by the registered commands): deeper preemption bound / execution limit for the evt cells
+fn env_u64(k: &str) -> Option<u64> {
+	std::env::var(k).ok().and_then(|v| v.parse().ok())
 }
 
 pub struct C20 {
